@@ -6,8 +6,8 @@ Extracts, from the Python source (ast only, nothing is imported or executed):
   * the pyparsing configuration in `_make`: the `~code` literal prefix, the WordEnd character class, the
     CharsNotIn exclusion string of unquoted words, the two QuotedString quote characters and the escape
     character, Word(nums) for integer arguments, the class used for a naked regex, the three rows of the
-    infix_notation operator table (symbol, arity, associativity, node class) and the top-level OneOrMore /
-    FAnd wrapper.
+    infix_notation operator table (symbol, arity, associativity, node class), the top-level OneOrMore /
+    FAnd wrapper and whether parse_with_tabs() is set.
 Fail closed: `_make` must consist of exactly the statement shapes below; anything else raises.
 """
 from __future__ import annotations
@@ -136,8 +136,16 @@ def translate(repo: str) -> str:
     if len(make) != 1 or make[0].args.args or make[0].decorator_list:
         raise Unsupported("_make not found or has an unexpected signature")
     body = [s for s in make[0].body if not (isinstance(s, ast.Expr) and isinstance(s.value, ast.Constant))]
+    # tail: either `return expr.set_parse_action(A)` (pyparsing then expands tabs before parsing) or
+    # `expr.set_parse_action(A); return expr.parse_with_tabs()`
+    if len(body) == 14 and ast.unparse(body[13]) == "return expr.parse_with_tabs()" \
+            and isinstance(body[12], ast.Expr):
+        keep_tabs = True
+        body = body[:12] + [ast.Return(value=body[12].value)]
+    else:
+        keep_tabs = False
     if len(body) != 13:
-        raise Unsupported(f"_make has {len(body)} statements, expected 13")
+        raise Unsupported(f"_make has {len(body)} statements, expected 13 (or 14 with parse_with_tabs)")
     if ast.unparse(body[0]) != "parts = []":
         bad("expected parts = []", body[0])
     pre1, we1 = atom_loop(body[1], "filter_unary", None)
@@ -243,6 +251,7 @@ def translate(repo: str) -> str:
         f"Definition word_excluded : bytes := {cbytes(excluded)}.",
         f"Definition quote_chars : bytes := {cbytes(''.join(quotes))}.",
         f"Definition digit_chars : bytes := {cbytes(PP_CONST['pp.nums'])}.",
+        f"Definition keep_tabs : bool := {'true' if keep_tabs else 'false'}.",
         f"Definition op_not : byte := {cbytes(rows[0][0])[1:-1]}.",
         f"Definition op_and : byte := {cbytes(rows[1][0])[1:-1]}.",
         f"Definition op_or : byte := {cbytes(rows[2][0])[1:-1]}.",
